@@ -232,7 +232,7 @@ def build(run):
             run.add(undecided(f"{fq}/subset", f"outside the verified subset: {ex_}", fn=fq, meta={"replay": rp}))
         except NotFound as ex_:
             run.add(static(f"{fq}/exists", False, f"function under contract not found: {ex_}", fn=fq))
-    run.bounded("engine.Engine.is_ready+process/ready_implies_processable.runtime", W_N, "replay_ready", [dict(seed=run.seed, budget=250 if run.tier == "quick" else 4000)],
+    run.bounded("engine.Engine.is_ready+process/ready_implies_processable.runtime", W_N, "replay_ready", [dict(seed=run.seed, budget=4000 if run.tier == "quick" else 80000)],
                 bound="generated engines (Mamdani / Takagi-Sugeno / Tsukamoto / hybrid conclusions, and/or antecedents, every activation method) with every subset of {conjunction, disjunction, implication, aggregation, defuzzifier} removed x finite input rows given as floats, 1-row vectors and 1-row matrices")
 
 
